@@ -1,1 +1,44 @@
-fn main() {}
+//! Engine E — finite matrices over the real server and the real client library
+//! on loopback QUIC, with a raw wire-protocol peer and a scripted fake server.
+
+mod c03;
+mod certs;
+mod net;
+mod util;
+
+use vcommon::report::machinery_failure;
+
+fn main() {
+    let args: Vec<String> = std::env::args().collect();
+    if args.len() < 3 {
+        eprintln!("usage: e2elab <C03|C04|C07|C11|C12|C15|C16|C17> <quick|thorough|replay> [file]");
+        std::process::exit(2);
+    }
+    let id = args[1].clone();
+    let tier = args[2].clone();
+    if tier == "replay" {
+        let path = args.get(3).cloned().unwrap_or_default();
+        let s = std::fs::read_to_string(&path).unwrap_or_else(|e| machinery_failure(&format!("cannot read {path}: {e}")));
+        let v: vcommon::report::Violation = serde_json::from_str(&s).unwrap_or_else(|e| machinery_failure(&format!("cannot parse {path}: {e}")));
+        println!("replaying {} clause={} fingerprint={}", v.property, v.clause, v.fingerprint);
+        println!("recorded: {}", v.message);
+        std::env::set_var("VERIF_ONLY_CELL", v.case.to_string());
+    } else if tier != "quick" && tier != "thorough" {
+        machinery_failure("tier must be quick, thorough or replay");
+    }
+    let rt = tokio::runtime::Builder::new_multi_thread().worker_threads(16).enable_all().build().expect("tokio runtime");
+    let run_tier = if tier == "replay" { "thorough".to_string() } else { tier.clone() };
+    let replaying = tier == "replay";
+    let res = std::panic::catch_unwind(std::panic::AssertUnwindSafe(|| {
+        rt.block_on(async move {
+            match id.as_str() {
+                "C03" => c03::run(&run_tier, replaying).await,
+                _ => machinery_failure("e2elab serves C03 C04 C07 C11 C12 C15 C16 C17"),
+            }
+        })
+    }));
+    certs::cleanup_dirs();
+    if res.is_err() {
+        machinery_failure("engine panicked");
+    }
+}
